@@ -66,8 +66,8 @@ CLAIMED = {
         "run of adjacent inline-only siblings, appears contiguously in the output (induction over trees and sibling "
         "lists, all loop states). Tied to the code by differential execution on unrestricted trees and lists, a "
         "substring oracle fed by the extracted Coq spec, and a token-level whitespace-at-block-edges oracle.",
-   note=TB + "The statement's last clause (layout whitespace only next to the tags of whitespace-enabled elements) is "
-        "checked by the token-level oracle on the implementation, not proved in Coq (partial).",
+   note=TB + "All clauses are proved, including the last one (layout whitespace only next to the tags of whitespace-enabled "
+        "elements: C05_ws_at_block_edges, for all trees incl. block-inside-inline).",
    tech="Coq proof by structural induction over the renderer model + differential correspondence + spec oracle",
    ref="6 C05"),
  "C06": dict(
@@ -90,6 +90,24 @@ CLAIMED = {
         "dependency collection itself is C10's subject.",
    tech="Coq proof by structural induction over the renderer model + differential correspondence",
    ref="6 C07"),
+ "C08": dict(
+   text="Machine-checked theorems over an explicit heap model (objects, locations, alloc and store placed exactly where "
+        "the Python code creates or assigns): every operation of the statement -- tagify, render, get_html_string, "
+        "get_dependencies, copy.copy, HTMLDocument.render in its three construction cases (repaired code) and "
+        "_hoist_head_content -- returns the old heap plus new objects (purity), for single operations and for any "
+        "history; old locations denote the same trees under any extension, so any interleaving replays; every object "
+        "reachable from a tagify() result is fresh, hence a store through the copy never changes the original and vice "
+        "versa; tagify refines the pure substitution (identity when nothing expands, fixed point); str/repr/"
+        "_repr_html_/render()['html'] coincide; == reflects a declarative structural similarity (reflexive, symmetric, "
+        "false on any difference of name, flag, attribute set/values, child structure/text). Tied to the code by "
+        "object graphs WITH aliasing encoded as heaps and compared incl. their sharing pattern, whole-graph snapshots "
+        "before/after random interleavings of the read-only operations, id()-set independence and mutation tests.",
+   note=TB + "PARTIAL: HTMLDependency internals are outside the heap model (opaque payload) -- known finding F8 lives there; "
+        "save_html filesystem effects and the purity of as_html_tags/as_dict/source_path_map/serialize are covered by the "
+        "snapshot oracle only. Defect F2 was repaired in /repo (fix: 834fc6a). Well-formedness of the heap and enough "
+        "fuel are hypotheses of the theorems; a tagifiable object's tagify() is modelled as returning fresh tagified nodes.",
+   tech="Coq proof (heap extension/frame lemmas, reachability freshness, refinement to the pure layer; ~2400 lines) + differential correspondence on aliased object graphs + snapshot oracle",
+   ref="6 C08"),
  "C09": dict(
    text="Machine-checked theorems: the backwards index loop with slice assignment of TagList.tagify equals flat_map of "
         "the per-child expansion for every list, position, multiplicity and empty expansion; the fuelled model of "
